@@ -590,7 +590,8 @@ func loadYamlFile(ctx context.Context, file types.ConfigFile, opts *Options, wor
 			verifPhase(opts, "}doc")
 		}
 	} else {
-		if err := processRawYaml(file.Config); err != nil {
+		// the caller's parsed document is left as it is: the steps below work in place
+		if err := processRawYaml(deepClone(file.Config)); err != nil {
 			return nil, nil, err
 		}
 		verifPhase(opts, "}doc")
